@@ -7,6 +7,7 @@ from vlib import hx
 DECLS = r'''
 #[derive(Debug, Clone, PartialEq)] struct Leaf { n: i32, s: String, flag: bool }
 #[derive(Debug, Clone, PartialEq)] enum Kind { Unit, Other, Tup(i32, String), Rec { a: i32, b: String } }
+use Kind::*;
 #[derive(Debug, Clone, PartialEq)] struct Mid { leaf: Leaf, kind: Kind, opt: Option<i32>, bx: Box<i32>, xs: Vec<i32>, pair: (i32, String), m: BTreeMap<String, i32>, names: Vec<String>, bb: Box<Box<i32>>, ol: Option<Leaf> }
 #[derive(Debug, Clone, PartialEq)] struct FL { x: f64, y: f64 }
 #[derive(Debug, Clone, PartialEq)] struct Inner { id: i32, name: String, n: i32 }
@@ -107,7 +108,7 @@ TOP = Struct("Top", [("mid", MID), ("mids", Vec(MID)), ("res", Res(I32(), Str())
                      ("mm", MapT(LEAF)), ("count", I32())])
 INNER = Struct("Inner", [("id", I32()), ("name", Str()), ("n", I32())])
 OUTER = Struct("Outer", [("id", I32()), ("inner", INNER), ("name", Str()), ("n", I32()), ("also", Opt(INNER))])
-ROOTS = [OUTER, OUTER, TOP, MID, LEAF, KIND, Vec(I32()), Opt(LEAF), Tup([I32(), Str()]), MapT(I32()), Vec(LEAF), I32(), Str(),
+ROOTS = [Vec(KIND), Opt(KIND), Res(KIND, Str()), Tup([Opt(KIND), I32()]), Vec(Opt(KIND)), OUTER, OUTER, TOP, MID, LEAF, KIND, Vec(I32()), Opt(LEAF), Tup([I32(), Str()]), MapT(I32()), Vec(LEAF), I32(), Str(),
          Opt(I32()), Vec(Str()), Res(I32(), Str()), Vec(Opt(I32())), Tup([KIND, Vec(I32())])]
 
 
@@ -485,12 +486,20 @@ class Gen:
         name, kind, payload = variants[vn]
         self.note("enum:" + kind)
         path = "%s::%s" % (t.name, vn)
+        if rng.random() < 0.3:
+            # the variant named through its import (`use Kind::*`): a single-segment path
+            path = vn
+            self.note("enum:imported-name")
         same = vn == pv[0]
         if kind == "unit":
             return path
         if kind == "tuple":
             subs = [self.pat(x, pv[1 + i], depth + 1) if same else self.pat_any(x, depth) for i, x in enumerate(payload)]
             return "%s(%s)" % (path, ", ".join(subs))
+        if rng.random() < 0.35:
+            # a struct-variant pattern that constrains no field: only the variant itself is checked
+            self.note("enum:struct-no-constraint")
+            return rng.choice(["%s { .. }", "%s { a: _, .. }", "%s { b: _, a: _ }"]) % path
         if same:
             return self.struct_pat(t, pv[1], depth, path, fields=payload, allow_wild=False)
         fake = {f: gen_value(rng, ft, 3)[2] for f, ft in payload}
@@ -504,7 +513,7 @@ def caller_sexp():
     return "(%s)" % " ".join(out)
 
 
-UNITS_SEXP = "(%s)" % hx("None")
+UNITS_SEXP = "(%s %s %s)" % (hx("None"), hx("Unit"), hx("Other"))       # unit variants in scope by their bare name (None; Kind::* is imported)
 
 
 def set_stress_case(rng):
@@ -685,6 +694,38 @@ def float_case(rng):
             "pattern": "[%s]" % ", ".join(pats), "kinds": {"float:vec": 1}}
 
 
+def variant_only_case(rng):
+    """a pattern that checks nothing but WHICH variant a value is (no argument or field is constrained), named by its full path
+    or by an imported single-segment name, at an element position (Some / Ok / slice element / tuple element / indexed element):
+    the one thing such a pattern asserts must still be asserted"""
+    vals = {"Unit": ("Kind::Unit", "(variant %s)" % hx("Unit")), "Other": ("Kind::Other", "(variant %s)" % hx("Other")),
+            "Tup": ("Kind::Tup(3, \"x\".to_string())", "(variant %s (int 3) (str %s))" % (hx("Tup"), hx("x"))),
+            "Rec": ("Kind::Rec { a: 3, b: \"x\".to_string() }", "(struct %s (%s (int 3)) (%s (str %s)))" % (hx("Rec"), hx("a"), hx("b"), hx("x")))}
+    pats = {"Unit": ["%sUnit"], "Other": ["%sOther"], "Tup": ["%sTup(_, _)", "%sTup(..)" if False else "%sTup(_, _)"],
+            "Rec": ["%sRec { .. }", "%sRec { a: _, .. }", "%sRec { a: _, b: _ }", "%sRec { }" if False else "%sRec { .. }"]}
+    actual = rng.choice(list(vals))
+    written = actual if rng.random() < 0.35 else rng.choice(list(vals))
+    prefix = "" if rng.random() < 0.55 else "Kind::"
+    pat = rng.choice(pats[written]) % prefix
+    vr, vm = vals[actual]
+    w = rng.choice(["some", "ok", "slice", "slice2", "tuple", "tuple_idx", "nested"])
+    if w == "some":
+        return {"type": "Option<Kind>", "value_rust": "Some(%s)" % vr, "value_model": "(variant %s %s)" % (hx("Some"), vm), "pattern": "Some(%s)" % pat, "kinds": {"variant-only": 1}}
+    if w == "ok":
+        return {"type": "Result<Kind, String>", "value_rust": "Ok(%s)" % vr, "value_model": "(variant %s %s)" % (hx("Ok"), vm), "pattern": "Ok(%s)" % pat, "kinds": {"variant-only": 1}}
+    if w == "slice":
+        return {"type": "Vec<Kind>", "value_rust": "vec![%s]" % vr, "value_model": "(vec %s)" % vm, "pattern": "[%s]" % pat, "kinds": {"variant-only": 1}}
+    if w == "slice2":
+        o = vals["Other"]
+        return {"type": "Vec<Kind>", "value_rust": "vec![%s, %s]" % (o[0], vr), "value_model": "(vec %s %s)" % (o[1], vm), "pattern": "[Kind::Other, %s]" % pat, "kinds": {"variant-only": 1}}
+    if w == "tuple":
+        return {"type": "(Kind, i32)", "value_rust": "(%s, 7)" % vr, "value_model": "(tuple %s (int 7))" % vm, "pattern": "(%s, 7)" % pat, "kinds": {"variant-only": 1}}
+    if w == "tuple_idx":
+        return {"type": "(i32, Kind)", "value_rust": "(7, %s)" % vr, "value_model": "(tuple (int 7) %s)" % vm, "pattern": "(0: 7, 1: %s)" % pat, "kinds": {"variant-only": 1}}
+    return {"type": "Option<Vec<(Kind, i32)>>", "value_rust": "Some(vec![(%s, 7)])" % vr, "value_model": "(variant %s (vec (tuple %s (int 7))))" % (hx("Some"), vm),
+            "pattern": "Some([(%s, _)])" % pat, "kinds": {"variant-only": 1}}
+
+
 def gen_case(rng, hit=None, closures=True):
     """one triple: returns dict(type, value_rust, value_model, pattern, kinds)"""
     if rng.random() < 0.12:
@@ -693,6 +734,8 @@ def gen_case(rng, hit=None, closures=True):
         return map_order_case(rng)
     if rng.random() < 0.07:
         return float_case(rng)
+    if rng.random() < 0.06:
+        return variant_only_case(rng)
     t = rng.choice(ROOTS)
     vr, vm, pv = gen_value(rng, t)
     g = Gen(rng, hit if hit is not None else rng.choice([1.0, 0.9, 0.75, 0.6, 0.5]), closures)
